@@ -83,27 +83,38 @@ impl PartialEq for NameMatcher {
 
 impl Eq for NameMatcher {}
 
+/// Writes the text of a non-regex matcher, preceded by `sigil` unless the matcher is implicit.
+///
+/// The first character of an implicit matcher is where the parser looks for a sigil and skips
+/// whitespace. If the text itself starts with `=`, `~`, `#` or a space, that character is written
+/// as a Unicode escape so that it is read back as part of the text. (`/` is always escaped.)
+fn fmt_matcher_text(
+    f: &mut fmt::Formatter<'_>,
+    sigil: &str,
+    implicit: bool,
+    value: &str,
+) -> fmt::Result {
+    if !implicit {
+        return write!(f, "{sigil}{}", DisplayParsedString(value));
+    }
+    let mut chars = value.chars();
+    match chars.next() {
+        Some(c @ ('=' | '~' | '#' | ' ')) => write!(
+            f,
+            "\\u{{{:x}}}{}",
+            c as u32,
+            DisplayParsedString(chars.as_str())
+        ),
+        _ => write!(f, "{}", DisplayParsedString(value)),
+    }
+}
+
 impl fmt::Display for NameMatcher {
     fn fmt(&self, f: &mut fmt::Formatter<'_>) -> fmt::Result {
         match self {
-            Self::Equal { value, implicit } => write!(
-                f,
-                "{}{}",
-                if *implicit { "" } else { "=" },
-                DisplayParsedString(value)
-            ),
-            Self::Contains { value, implicit } => write!(
-                f,
-                "{}{}",
-                if *implicit { "" } else { "~" },
-                DisplayParsedString(value)
-            ),
-            Self::Glob { glob, implicit } => write!(
-                f,
-                "{}{}",
-                if *implicit { "" } else { "#" },
-                DisplayParsedString(glob.as_str())
-            ),
+            Self::Equal { value, implicit } => fmt_matcher_text(f, "=", *implicit, value),
+            Self::Contains { value, implicit } => fmt_matcher_text(f, "~", *implicit, value),
+            Self::Glob { glob, implicit } => fmt_matcher_text(f, "#", *implicit, glob.as_str()),
             Self::Regex(r) => write!(f, "/{}/", DisplayParsedRegex(r)),
         }
     }
